@@ -492,7 +492,11 @@ fn parsed_checks<'a>(out: &mut Out, case: &str, what: &str, buf: &'a [u8], start
             let cl = usize::from(pn.compose_len());
             let labels: usize = pn.iter_labels().map(|l| l.len() + 1).sum();
             let f: Name<Vec<u8>> = pn.clone().flatten_into();
-            (v, c, cl, labels, f.as_slice().to_vec(), p.pos())
+            let cow = pn.to_cow().as_slice().to_vec();
+            let mut it = Vec::new();
+            for l in pn.iter_labels() { it.push(l.len() as u8); it.extend_from_slice(l.as_slice()); }
+            let eq_want = Name::from_octets(want.to_vec()).map(|n| pn == n).unwrap_or(true);
+            (v, c, cl, labels, f.as_slice().to_vec(), (cow, it, eq_want))
         })
     }));
     {
@@ -503,7 +507,11 @@ fn parsed_checks<'a>(out: &mut Out, case: &str, what: &str, buf: &'a [u8], start
     match r {
         Err(e) => out.check(false, "parsed_name_panic", case, &format!("{}: {}", what, e)),
         Ok(Err(_)) => out.check(!want_ok, "parsed_vs_flat_mismatch", case, &format!("{}: ParsedName::parse rejects a name that Name::from_octets accepts", what)),
-        Ok(Ok((v, c, cl, labels, f, _pos))) => {
+        Ok(Ok((v, c, cl, labels, f, (cow, it, eq_want)))) => {
+            out.check(check_abs(&cow).is_ok() && check_abs(&it).is_ok(), "parsed_name_invalid", case, &format!("{}: to_cow {} / label iterator {}", what, hex(&cow), hex(&it)));
+            out.check(v == it && c == it && f == it && cow == it, "parsed_name_octets", case,
+                &format!("{}: label iterator {} to_vec {} compose {} flatten_into {} to_cow {}", what, hex(&it), hex(&v), hex(&c), hex(&f), hex(&cow)));
+            out.check(eq_want, "parsed_name_octets", case, &format!("{}: ParsedName != the same name as Name", what));
             out.check(want_ok, "parsed_vs_flat_mismatch", case, &format!("{}: ParsedName::parse accepts {} octets that Name::from_octets rejects", what, v.len()));
             let ok = check_abs(&v);
             out.check(ok.is_ok(), "parsed_name_invalid", case, &format!("{}: to_vec gives {:?} ({} octets)", what, ok, v.len()));
@@ -558,6 +566,36 @@ fn parsed_case(out: &mut Out, r: &mut Rng) {
         buf.push(0xC0 | ((tpos >> 8) as u8)); buf.push(tpos as u8);
         buf.extend_from_slice(&[0x55, 0x55]);
         parsed_checks(out, &case, &format!("pointer to the tail at label {}", k), &buf, hpos, want_ok, &w);
+    }
+    // the name is ONLY a pointer; the target is labels + another pointer (2 hops), or that again (3 hops)
+    if starts.len() >= 3 {
+        for hops in [2usize, 3] {
+            if starts.len() < hops + 1 { continue; }
+            // cut points: hops-1 inner boundaries, strictly increasing label starts > 0
+            let mut cuts: Vec<usize> = vec![];
+            let inner = &starts[1..starts.len() - 1];
+            if inner.len() < hops - 1 { continue; }
+            let mut pool: Vec<usize> = inner.to_vec();
+            for _ in 0..hops - 1 { let i = r.below(pool.len() as u64) as usize; cuts.push(pool.remove(i)); }
+            cuts.sort();
+            let mut pieces: Vec<&[u8]> = vec![]; let mut prev = 0;
+            for &c in &cuts { pieces.push(&w[prev..c]); prev = c; }
+            pieces.push(&w[prev..]);           // last piece ends with the root label
+            // layout: last piece first, each earlier piece followed by a pointer to the next one
+            let mut buf = vec![0xAAu8; 2];
+            let mut target = buf.len();
+            buf.extend_from_slice(pieces[pieces.len() - 1]);
+            for p in pieces[..pieces.len() - 1].iter().rev() {
+                let here = buf.len();
+                buf.extend_from_slice(p);
+                buf.push(0xC0 | ((target >> 8) as u8)); buf.push(target as u8);
+                target = here;
+            }
+            let hpos = buf.len();
+            buf.push(0xC0 | ((target >> 8) as u8)); buf.push(target as u8);
+            buf.extend_from_slice(&[0x55, 0x55]);
+            parsed_checks(out, &case, &format!("bare pointer, {} hops", hops), &buf, hpos, want_ok, &w);
+        }
     }
     out.oracle_case(&case, w.len() > 2, "parsed_name");
 }
@@ -777,6 +815,82 @@ fn slicing_t2(out: &mut Out, r: &mut Rng, w: &[u8], absolute: bool) {
             out.check(cr.to_vec().as_slice() == &v[..], "chain_root_differs", &c, "");
         }
         out.case(&c, &ow, true, "into_absolute");
+    }
+}
+
+
+// ------------------------------------------------------------------ suffix / prefix hidden inside a label
+fn labels_of(w: &[u8]) -> Vec<Vec<u8>> {
+    let mut v = vec![]; let mut i = 0;
+    while i < w.len() && w[i] != 0 { let l = w[i] as usize; v.push(w[i + 1..i + 1 + l].to_vec()); i += 1 + l; }
+    v
+}
+fn ends_with_ref(n: &[Vec<u8>], b: &[Vec<u8>]) -> bool {
+    b.len() <= n.len() && n[n.len() - b.len()..].iter().zip(b).all(|(x, y)| x.eq_ignore_ascii_case(y))
+}
+fn starts_with_ref(n: &[Vec<u8>], b: &[Vec<u8>]) -> bool {
+    b.len() <= n.len() && n.iter().zip(b).all(|(x, y)| x.eq_ignore_ascii_case(y))
+}
+/// Names one of whose labels CONTAINS the wire form of the base (length octet +
+/// label ...) at its end or at its start, so that the octets of the name end
+/// (start) with the octets of the base without the base being a suffix (prefix).
+fn confusion_case(out: &mut Out, r: &mut Rng) {
+    use domain::base::name::ToLabelIter;
+    use std::panic::AssertUnwindSafe as A;
+    let nb = r.range(1, 2) as usize;
+    let base_labels: Vec<Vec<u8>> = (0..nb).map(|_| { let l = r.range(1, 6) as usize; (0..l).map(|_| b'a' + r.below(26) as u8).collect() }).collect();
+    let base_rel: Vec<u8> = base_labels.iter().flat_map(|l| { let mut v = vec![l.len() as u8]; v.extend(l); v }).collect();
+    let junk: Vec<u8> = (0..r.range(1, 8)).map(|_| b'a' + r.below(26) as u8).collect();
+    let mut names: Vec<Vec<Vec<u8>>> = vec![];
+    // the whole wire form of the base at the END of the last label
+    { let mut big = junk.clone(); big.extend(&base_rel); let mut n = vec![]; if r.chance(1, 2) { n.push(b"pre".to_vec()); } n.push(big); names.push(n); }
+    // ... with changed case of the letters
+    { let mut big = junk.clone(); big.extend(base_rel.iter().map(|&x| if x.is_ascii_lowercase() && r.chance(1, 2) { x ^ 0x20 } else { x })); names.push(vec![big]); }
+    // only the last label of the base is a real label, the rest hides in the label before it
+    if nb == 2 { let mut big = junk.clone(); big.push(base_labels[0].len() as u8); big.extend(&base_labels[0]); names.push(vec![big, base_labels[1].clone()]); }
+    // the base at the START of the first label (octet prefix, not a label prefix)
+    { let mut n: Vec<Vec<u8>> = base_labels[..nb - 1].to_vec(); let mut big = base_labels[nb - 1].clone(); big.extend(&junk); n.push(big); n.push(b"post".to_vec()); names.push(n); }
+    // genuine suffix / prefix for contrast
+    { let mut n = vec![junk.clone()]; n.extend(base_labels.clone()); names.push(n); }
+    { let mut n = base_labels.clone(); n.push(junk.clone()); names.push(n); }
+    for nl in names {
+        if nl.iter().any(|l| l.len() > 63) { continue; }
+        let rel: Vec<u8> = nl.iter().flat_map(|l| { let mut v = vec![l.len() as u8]; v.extend(l); v }).collect();
+        for absolute in [false, true] {
+            let k = if absolute { "A" } else { "R" };
+            let (w, bw) = if absolute { let mut a = rel.clone(); a.push(0); let mut b = base_rel.clone(); b.push(0); (a, b) } else { (rel.clone(), base_rel.clone()) };
+            let (h, bh) = (hex(&w), hex(&bw));
+            let want_e = if absolute { ends_with_ref(&nl, &base_labels) } else { ends_with_ref(&nl, &base_labels) };
+            let want_s = if absolute { nl.len() == base_labels.len() && starts_with_ref(&nl, &base_labels) } else { starts_with_ref(&nl, &base_labels) };
+            let (e, st, strip) = if absolute {
+                let n = Name::from_octets(w.clone()).unwrap(); let b = Name::from_octets(bw.clone()).unwrap();
+                (n.ends_with(&b), n.starts_with(&b), catch(A(|| n.clone().strip_suffix(&b).ok().map(|p| p.as_slice().to_vec()))))
+            } else {
+                let n = RelativeName::from_octets(w.clone()).unwrap(); let b = RelativeName::from_octets(bw.clone()).unwrap();
+                (n.ends_with(&b), n.starts_with(&b), catch(A(|| { let mut m = n.clone(); m.strip_suffix(&b).ok().map(|_| m.as_slice().to_vec()) })))
+            };
+            let c = format!("ends {} {} {}", k, h, bh);
+            out.begin(&c);
+            out.case(&c, if e { "true" } else { "false" }, true, "ends_with");
+            out.check(e == want_e, "ends_with_not_labelwise", &c, &format!("ends_with = {}, label by label = {}", e, want_e));
+            let c = format!("starts {} {} {}", k, h, bh);
+            out.case(&c, if st { "true" } else { "false" }, true, "starts_with");
+            out.check(st == want_s, "starts_with_not_labelwise", &c, &format!("starts_with = {}, label by label = {}", st, want_s));
+            let c = format!("strip {} {} {}", k, h, bh);
+            let ow = match &strip { Ok(None) => "None".to_string(), Ok(Some(v)) => format!("Some:{}", hex(v)), Err(_) => "Panic".into() };
+            out.case(&c, &ow, true, "strip_suffix");
+            out.check(strip.is_ok(), "strip_suffix_panic", &c, "");
+            if let Ok(res) = &strip {
+                out.check(res.is_some() == want_e, "strip_suffix_not_labelwise", &c, &format!("strip_suffix {} but the base is{} a suffix label by label", ow, if want_e { "" } else { " not" }));
+                if let Some(v) = res {
+                    out.check(check_rel(v).is_ok(), "strip_suffix_invalid", &c, &hex(v));
+                    let keep = nl.len().saturating_sub(base_labels.len());
+                    let expect: Vec<u8> = nl[..keep].iter().flat_map(|l| { let mut x = vec![l.len() as u8]; x.extend(l); x }).collect();
+                    if want_e { out.check(*v == expect, "strip_suffix_octets", &c, &hex(v)); }
+                }
+            }
+            let _ = labels_of(&w);
+        }
     }
 }
 
@@ -1087,6 +1201,9 @@ fn main() {
         if absolute { w.push(0); }
         idx += 1; if out.wants(idx) { slicing_t2(&mut out, &mut r, &w, absolute); }
     }
+
+    let n_conf = if a.thorough { 4_000 } else { 400 } * a.scale;
+    for _ in 0..n_conf { idx += 1; if out.wants(idx) { confusion_case(&mut out, &mut r); } else { let _ = r.fork(); } }
 
     // ---- names parsed from messages and scanned from zone-file text (oracle only)
     let n_msg = if a.thorough { 60_000 } else { 5_000 } * a.scale;
